@@ -213,6 +213,26 @@ impl<C> EntryShape<()> for for<'a> unsafe extern "C" fn(&'a C, bool) -> i32 {
     }
 }
 
+/// a Display implementation that can FAIL by itself, and a text sink that can fail
+pub struct Fm {
+    pub fail: bool,
+}
+impl core::fmt::Display for Fm {
+    fn fmt(&self, f: &mut core::fmt::Formatter<'_>) -> core::fmt::Result {
+        if self.fail { Err(core::fmt::Error) } else { f.write_str("ok") }
+    }
+}
+pub struct TextSink {
+    pub bytes: usize,
+    pub fail: bool,
+}
+impl core::fmt::Write for TextSink {
+    fn write_str(&mut self, s: &str) -> core::fmt::Result {
+        self.bytes += s.len();
+        if self.fail { Err(core::fmt::Error) } else { Ok(()) }
+    }
+}
+
 /// Drive one entry: integer-coded iff `expect_int`; 0 exactly for Ok; slot written iff Ok.
 fn drive_entry<F: EntryShape<T>, T: Copy + PartialEq>(f: F, cont: *const u8, fail: bool, sentinel: T, ok_val: T, expect_int: bool) {
     let mut out = MaybeUninit::<T>::uninit();
@@ -330,6 +350,25 @@ nd::harnesses! {
             drop(z);
         }
         assert!(unsafe { Z_DROPS == Z_MADE }, "destroyed exactly once");
+    }
+
+    /// The built-in formatting traits are integer-coded too: formatting through an opaque `Display` object fails exactly
+    /// when the direct call fails - whether the error comes from the implementor's own `fmt` or from the caller's sink.
+    #[kani::unwind(6)]
+    fn c13e_display_object_reports_fmt_errors() {
+        use core::fmt::Write;
+        let fail_impl: bool = nd::any();
+        let fail_sink: bool = nd::any();
+        nd::cover!(fail_impl && !fail_sink, "the implementor's own fmt fails");
+        nd::cover!(!fail_impl && fail_sink, "the caller's sink fails");
+        let mut direct_sink = TextSink { bytes: 0, fail: fail_sink };
+        let direct = write!(direct_sink, "{}", Fm { fail: fail_impl });
+        let obj = trait_obj!(Fm { fail: fail_impl } as Display);
+        let mut sink = TextSink { bytes: 0, fail: fail_sink };
+        let through = write!(sink, "{}", obj);
+        assert!(through.is_err() == direct.is_err(), "Ok exactly when the direct call is Ok");
+        assert!(through.is_err() == (fail_impl || fail_sink));
+        assert!(sink.bytes == direct_sink.bytes, "the same text reaches the sink");
     }
 
     /// Rust-side round trip equals the direct call, for every marker combination.
